@@ -129,3 +129,27 @@ Example C08_ex_generated :
       [[Enter 3; Enter 4; Leave 4; Enter 5]; [Enter 3; Enter 4; Leave 3]; [Enter 3; Enter 3]; [Leave 3]]
   = [Some (2, 5); None; None; None].
 Proof. vm_compute. reflexivity. Qed.
+
+(* ==== table events from source (unit dispatch) ==== *)
+(* See the block of the same name in Properties_C18.v.  For the six table-driven models: an event (m, c, v) whose
+   category the handler passes to its table and whose entry is (ch, a, x) is handled by the generated code exactly as
+   core_step handles EvChan k a (Some x) (need_of m), k the position of channel ch of model m: the thread-state
+   requirement of the model (C08_thread_state_required), then chan_step = raw_apply on that channel with that value
+   (C08_event_is_channel_op, C08_chan_ops_from_source) - same accepted state and written channel, or both refuse. *)
+From OV Require Emu.DispatchPre Emu.TaskEvPre Gen.Dispatch_gen Proofs.DispatchProofs.
+Theorem C08_table_events_from_source : forall sx en marks who th me jumbo aux st m c v p ch a x k,
+  let cs := mk_chans en ++ marks in
+  nth_error (threads st) who = Some th -> nth_error (s_threads sx) who = Some me -> s_chans sx = cs ->
+  In m DispatchProofs.table_models -> memz m en = true ->
+  ((m = M_NOSV \/ m = M_NANOS6) -> c <> 84 /\ c <> 89) ->
+  match cats m with Some l => memz c l | None => true end = true ->
+  table_lookup Tables_gen.table m c v = Some (ch, a, x) -> chan_pos cs m ch = Some k ->
+  let E := {| DispatchPre.d_te := {| TaskEvPre.te_sx := sx; TaskEvPre.te_cs := cs |}; DispatchPre.d_jumbo := jumbo; DispatchPre.d_aux := aux |} in
+  match core_step sx st who (EvChan k (conv_action a) (Some x) (need_of m)) with
+  | Ok (st', d) => DispatchProofs.gen_event m (DispatchProofs.mk who m c v p) E (DispatchProofs.W st []) = Ok (tt, DispatchProofs.W st' d)
+  | Err _ => exists e', DispatchProofs.gen_event m (DispatchProofs.mk who m c v p) E (DispatchProofs.W st []) = Err e' /\
+                        e' <> DispatchPre.E_TRAP
+  end.
+Proof. exact DispatchProofs.table_events_from_source. Qed.
+Print Assumptions C08_table_events_from_source.
+(* ==== end of block (unit dispatch) ==== *)
